@@ -6,7 +6,41 @@
 // (azimuthal) scale, found for Albers by a 100-digit root solve.  No divided differences, no Newton
 // inversion, none of the library's tau/tau' helpers.
 //
-// MUTATION-TABLE-PLACEHOLDER
+// Sub-checks (tolerances: documented 10 nm "true distance", origin latitude 4.5e-14 deg, scale 7e-15, each x K = 2, scaled by a
+// and by the local stretch of the map; calibrated laws where nothing is documented: Albers, |f| > 0.02 (positions) resp.
+// |f| > 0.0034 (origin constants, f^2 law); conditioning terms: arc along the parallel, distance from the apex for k)
+//   C11.a  Forward x, y, gamma, k vs closed form; poles that map to infinity / infinite scale: finite and "large"
+//   C11.b  Reverse(Forward(p)), Reverse(rounded reference image of p) = p (true distance); gamma, k from Reverse; Forward(Reverse);
+//          Reverse(Forward(pole)) at a finite apex; Reverse of far-away finite points stays in range
+//   C11.c  k on the standard parallels = k1; OriginLatitude / CentralScale vs 100-digit oracle; SetScale (value, re-scaled
+//          oracle, documented exceptions)
+//   C11.d  magnification / rotation of the library map by 4th-order differences = k (1/k N-S for Albers), gamma; Albers:
+//          shoelace area of the image of a geographic rectangle (96/192 samples per edge, Richardson) = ellipsoidal area
+//   C11.e  constructor equivalence (degree / sin-cos bitwise, single = equal pair bitwise, swapped parallels, pair vs single at
+//          (OriginLatitude, CentralScale)); static singletons = explicit constructions (bitwise)
+//   C11.f  limits: LCC(0) = Mercator, LCC(+-90) = polar stereographic (closed form and PS class), Albers(0) = cylindrical,
+//          Albers(+-90) = Lambert azimuthal
+//   C11.g  hemisphere symmetry (x, -y, -gamma, k), bitwise unless the parallels are symmetric about the equator
+//
+// Sensitivity (scratch copy of /repo HEAD, VERIF_REPO=<copy>, `check.py C11 --tier quick`, seed 1, open findings enabled through
+// VF_KNOWN; sub-checks with a confirmed VIOLATION):
+//   LCC hpp   Dexp: drop sinh(t)/t                       a,b,c,d      Dsinh: "+ 1" dropped under the root     a,b,c,g
+//             Dlog1p: 1+y -> 1+x                         a,b,c        Dasinh: x*hy+y*hx -> x*hx+y*hy          a,b,c,d,e,g
+//   LCC cpp   Forward: "y *= _sign" removed              a,b,c,d,f,g  Init: "t *= tbm - tam" -> "t *= tbm"    a,b,c
+//             Reverse: min(drho, _drhomax) removed       b  (only after the far-point test was added to C11.b)
+//   Math.cpp  tauf numit 5 -> 1                          b
+//   Albers    atanhxm1: half the terms                   a,b,c        DDatanhee1: k += 2 -> k += 1            a,b,c
+//             tphif numit_ 5 -> 1                        b            Init Newton tolerance tol0_ -> 1e-4     a,b,c
+//             SetScale: _k2 not updated                  c            Dsn: square dropped                     a,b,c,d,e,f
+//   PS        SetScale: _k0 = k                          c            Forward: south sign                     a,b,c,d,f,g
+//   fix reverts  F1 (Albers double _sign) a,b,c,d,f,g   F21 (tauf prolate) b   F22 (Albers polar flag) a,b,c,e   F23 (LCC SetScale) c
+//                F25 (LCC Deatanhe) a,b,c   F26 (constructor exceptions) a,b,c,d   F42 (SetScale pole sign) c   F43 (Albers NaN at pole) a,c
+//                F44 (LCC apex NaN) b
+//   NOT caught:  Albers DDatanhee threshold 0.75 -> 0.001 (straight divided difference used instead of the series): no failure in
+//                the quick tier even with the class pair-nearly-equal-near-pole; the loss only enters 1 - s of the origin Newton and
+//                stays below the (calibrated, undocumented) Albers tolerances, and the extreme region (cos < 1e-15) is covered by
+//                the open finding C11-albers-origin-nearpole
+//                F4 (LCC Reverse swallows NaN through fmin): NaN inputs are outside this property's generator (C13)
 #include "fw/harness.hpp"
 #include "gen/geo.hpp"
 #include "ref/mp.hpp"
@@ -172,7 +206,12 @@ Cfg gen_cfg(int proj = -1) {
   gen_ell(c.a, c.f, ec);
   c.k = g::coin(1, 3) ? g::oneof<double>({1.0, 0.9996, 0.994}) : g::loguni(1e-3, 1e3);
   if (c.proj == PS) { c.northp = g::coin(); c.cls = "ps"; return c; }
-  switch (g::wpick({8, 3, 4, 5, 12, 12, 6, 6, 8, 4, 10, 14, 8, 2})) {
+  switch (g::wpick({8, 3, 4, 5, 12, 12, 6, 6, 8, 4, 10, 14, 8, 2, 6})) {
+    case 14: {   // two nearly equal parallels both close to (not at) a pole: 1 - sin(lat) = 1e-17 .. 1e-4, where a
+                 // straight divided difference of atanh(e x)/e cancels and the library switches to series
+      c.ctor = 1; double sg = g::sgn(), co = g::loguni(1e-6, 1.0);
+      c.lat1 = sg * (90 - co); c.lat2 = sg * (90 - co * (1 + g::sgn() * g::loguni(1e-9, 0.3))); c.cls = "pair-nearly-equal-near-pole"; break;
+    }
     case 13: {   // singular sets documented to throw: opposite poles; LCC: a pole with another parallel
       c.ctor = 1; double sg = g::sgn(); c.lat1 = sg * 90;
       c.lat2 = (c.proj == ALB || g::coin()) ? -sg * 90 : g::uni(-89, 89); if (g::coin()) std::swap(c.lat1, c.lat2);
@@ -223,6 +262,14 @@ void gen_points(J& r, int npts = 3) {
 J gen_fwd(int proj = -1, int npts = 3) { J r = J::obj(); Cfg c = gen_cfg(proj); put_cfg(r, c); gen_points(r, npts); return r; }
 
 // ---------------------------------------------------------------------------------- findings (see findings/C11-*.md)
+// Eleven library defects were found while calibrating this property.  Eight are FIXED in /repo (tauf-prolate 433cb7a,
+// albers-pole-first 3e30520, lcc-setscale-stale e4dc4ca, lcc-deatanhe-branch 8798dfe, ctor-pole-throw 99a5f50,
+// lcc-setscale-pole-sign de53880, albers-pole-nan 1f44ac6, lcc-reverse-apex-nan 33c820c): their guards below are inert
+// (no id is enabled any more; a recurrence is a plain FAIL; seeded/fix-reverts/F21..F26, F42..F44 re-introduce them).
+// Three are OPEN and proposed as known findings (findings/C11-proposed-known.json): C11-lcc-reverse-k-nearpolar,
+// C11-albers-origin-nearpole, C11-albers-reverse-overflow (the last one found by the far-point test added while
+// strengthening C11.b against the _drhomax mutant).  A guard only acts when its id is enabled by the driver (known_findings.json) or by
+// VF_KNOWN=id[,id] in the environment (development runs).
 const char* F_POLE1 = "C11-albers-pole-first";   // Albers, first parallel a pole and the second not: wrong projection
 const char* F_THROW = "C11-ctor-pole-throw";     // degree constructors accept singular pole combinations documented to throw
 const char* F_DEAT = "C11-lcc-deatanhe-branch";   // LCC, f < 1 - sqrt 2, parallels in opposite hemispheres: wrong cone constant
@@ -236,6 +283,7 @@ const char* F_ALB0 = "C11-albers-origin-nearpole";  // Albers: two distinct para
 const char* F_SPOL = "C11-lcc-setscale-pole-sign";   // LCC::SetScale pole test ignores _sign
 const char* F_APNAN = "C11-albers-pole-nan";         // Albers Forward NaN at the pole for a near-polar standard parallel
 const char* F_APEX = "C11-lcc-reverse-apex-nan";     // LCC Reverse NaN at the apex
+const char* F_AREV = "C11-albers-reverse-overflow";   // OPEN: Albers Reverse NaN for |x|,|y| > ~1e150
 const char* F_REVK = "C11-lcc-reverse-k-nearpolar"; // LCC::Reverse returns k = 0 for an origin within 1e-15 rad of (but not at) a pole
 bool albers_nearpole_pair(const Cfg& c) {
   if (c.proj != ALB || c.ctor == 0) return false;
@@ -504,6 +552,19 @@ Verdict check_b(const J& r) {
       LE(v, hypotl((L)X2 - X, (L)Y2 - Y), 2 * tol_xy(c, o, lam, R.k0()), (pn + " Forward(Reverse(x,y)) vs (x,y) [m]"));
     }
     nt = nt || (lam != 0 && (L)lat != R.lat0());
+  }
+  // a point far outside any image (|x|, |y| up to 1e300, where x^2 overflows): Reverse still returns angles in
+  // range, not NaN (LCC clamps drho at _drhomax; Albers documents "the nearest pole is returned")
+  if (!r.at("pts").a.empty()) {
+    double lat, lon; point_ok(r.at("pts").a[0], lat, lon);
+    // (not beyond 1e300: for a cylindrical limit lon = x/(a k0) in degrees would itself overflow)
+    static const double mags[] = {1e20, 1e100, 1e150, 1e200, 1e300};
+    unsigned h = (unsigned)(std::fabs(lat) * 1e6) + (unsigned)(std::fabs(lon) * 1e3);
+    double X = (std::signbit(lon) ? -1 : 1) * mags[h % 5], Y = (std::signbit(lat) ? -1 : 1) * mags[(h / 5) % 5];
+    double la, lo, gam, k; x.lib.reverse(x.lon0, X, Y, la, lo, gam, k);
+    v.that(std::fabs(la) <= 90 && std::fabs(lo) <= 180, pn + " Reverse of a far-away finite (x,y): lat/lon out of range (or NaN)");
+    if (v.failed() && known_on(F_AREV) && c.proj == ALB && v.msg.find("far-away") != std::string::npos) v.known(F_AREV, v.msg);
+    v.tag("far-point-reverse");
   }
   v.nontrivial = nt;
   return finish(v, x);
